@@ -33,3 +33,28 @@ Proof.
   destruct k; destruct (tk_line t) as [l|] eqn:L; try discriminate;
     unfold match_title_line, match_docsep; matcher_cases; intros H; inversion H; subst; reflexivity.
 Qed.
+
+(* a successful match reads only the token's physical line and line number: matching the scanner's raw token
+   of that line gives the same result, whatever earlier (look-ahead) matches left in the token *)
+Definition canon (t : token) : token :=
+  mk_token (tk_line t) (mk_loc (loc_line (tk_loc t)) None) None None None None 0 [] [].
+Theorem matcher_keeps_line ds k m t t' m' : matcher ds k m t = MYes t' m' ->
+  tk_line t' = tk_line t /\ loc_line (tk_loc t') = loc_line (tk_loc t).
+Proof.
+  unfold matcher.
+  destruct k; destruct (tk_line t) as [l|] eqn:L; try discriminate;
+    unfold match_title_line, match_docsep; matcher_cases; intros H; inversion H; subst; clear H;
+    cbn [tk_line tk_loc set_matched loc_line]; auto.
+Qed.
+Theorem matcher_reads_line ds k m t t' m' : matcher ds k m t = MYes t' m' -> matcher ds k m (canon t) = MYes t' m'.
+Proof.
+  unfold matcher. cbn [canon tk_line].
+  destruct k; destruct (tk_line t) as [l|] eqn:L; try discriminate;
+    unfold match_title_line, match_docsep; matcher_cases; intros H; inversion H; subst; clear H;
+    unfold set_matched, canon; cbn [tk_line tk_loc loc_line]; rewrite ?L; reflexivity.
+Qed.
+Corollary matcher_canon ds k m t t' m' : matcher ds k m t = MYes t' m' -> matcher ds k m (canon t') = MYes t' m'.
+Proof.
+  intros H. destruct (matcher_keeps_line _ _ _ _ _ _ H) as [E1 E2].
+  replace (canon t') with (canon t) by (unfold canon; rewrite E1, E2; reflexivity). apply matcher_reads_line, H.
+Qed.
